@@ -73,6 +73,32 @@ add("C06", "fault_enumeration", "svmc-E1",
     "The inserted character reaches the decoder unescaped because serde_json unescapes the JSON string.",
     "DESIGN.md 4/C06")
 
+add("C08", "exploration", "svmc-E1",
+    "bounded-exhaustive enumeration of well-formed index maps x query grids against independent flatten / section-lookup models",
+    "Every index map with 1..3/4 sections over 6 offsets x an 8-map pool (empty, multi-line, duplicate positions, shared source names with/without contents, ignore-listed source, range tokens, root-prefixed), one slot optionally a nested index / Hermes map / url-only, built by constructor and by decoding; flatten() is compared with RFlatten, index.lookup_token with RIndexLookup on a grid around every offset, and whenever the index finds a token the flattened map must report the same original location.",
+    "Ties at one position: any member accepted; flattened sources compared by name.",
+    "DESIGN.md 4/C08")
+add("C09", "exploration", "svmc-E1",
+    "bounded-exhaustive enumeration of maps x rewrite option sets against a token-preserving re-interning model",
+    "Source lists with duplicates/unreferenced entries x every token-to-source assignment (every first-use order) x contents masks x names/contents options; x roots x six prefix sets; Hermes maps x function-map/null x token sequences x options. Same positions, stripped source names, original positions, range flags, names; nothing unreferenced, no merged or duplicated sources; contents attached to the right names; file/debug id kept; Hermes scopes equal before, after and after saving.",
+    "Tokens have distinct positions so old/new tokens correspond exactly; '~' prefix and local file loading are outside the quantifier.",
+    "DESIGN.md 4/C09")
+add("C10", "exploration", "svmc-E1",
+    "bounded-exhaustive enumeration of (map, adjustment) pairs against an interval-composition model with tie tolerance",
+    "Every multiset of <=3 original positions x every multiset of <=2/3 adjustment tokens (10 positions x 6 displacements) in every insertion order on a 2x5 grid, plus a 2x12 grid; the result must equal the interval-by-interval composition under some choice of the live member of each equal-position group; violations are signed by clause so that the one recorded finding (extra tokens for empty original stretches) does not hide other deviations.",
+    "Displacements keep coordinates small and non-negative.",
+    "DESIGN.md 4/C10")
+add("C13", "model_checking", "svmc-E2",
+    "exhaustive enumeration of operation histories on real builder / map objects in lock-step with an interning reference model",
+    "Every history of <=4/5 builder calls over a 31-operation alphabet replayed on a fresh SourceMapBuilder (ids, raw tokens and getters compared after every step, the finished map at the end), and every history of <=4/5 map setter operations (source root, source, contents, save+load) over 16 operations from 12 seed maps (get_source = join(root, raw), serialised raw names + root after every step). No state merging.",
+    "Out-of-range ids (documented panics) are not in the alphabet.",
+    "DESIGN.md 4/C13")
+add("C14", "exploration", "svmc-E1",
+    "bounded-exhaustive enumeration of Metro function maps written by an independent encoder, resolved by the real code",
+    "Every strictly increasing entry list of <=4/5 entries over a 3x3 position grid x every name-index assignment (incl. out of range) x four encodings (trailing fields present/omitted, empty groups), looked up for a 31-token grid through three entry points, before and after to_writer+decode; every assignment of 1..3 sources to a 10-entry metadata menu (null, [], cut VLQ, 14 digits, foreign byte, empty, missing); a foreign byte/continuation digit inserted at every offset of a real function map next to an intact source.",
+    "Well-formed function maps have strictly increasing entries.",
+    "DESIGN.md 4/C14")
+
 NOT_YET = {}
 
 def main():
